@@ -356,9 +356,13 @@ def random_simple_type(rng, fam="int"):
 
 def random_composite_type(rng, fam="int", depth=1):
     """a type that holds other types (with_variant / ARRAY / TypeDecorator with a type argument / PickleType impl)
-    or a stateful user-defined type"""
+    or a stateful user-defined type; always constructible (see normalize_type)"""
+    return normalize_type(_random_composite_type(rng, fam, depth))
+
+
+def _random_composite_type(rng, fam="int", depth=1):
     c = rng.random()
-    inner = (random_composite_type(rng, fam, depth - 1) if depth > 0 and rng.random() < 0.25 else
+    inner = (_random_composite_type(rng, fam, depth - 1) if depth > 0 and rng.random() < 0.25 else
              [rng.choice(USER_TYPES), [rng.choice(["a", "b"])], {}] if rng.random() < 0.45 else random_simple_type(rng, fam))
     if c < 0.4:
         dns = rng.sample(VARIANT_DIALECTS, rng.choice([1, 1, 2]))
@@ -372,23 +376,74 @@ def random_composite_type(rng, fam="int", depth=1):
     return [rng.choice(USER_TYPES), [rng.choice(["a", "b"])], {}]
 
 
+def _strip_arrays(t):
+    """the same type spec with every ARRAY replaced by its item type (ARRAY may not hold an ARRAY, also not
+    through a wrapper or a variant)"""
+    if isinstance(t, str):
+        return t
+    name, args, kw = t
+    if name == "ARRAY":
+        return _strip_arrays(args[0])
+    if name == "Wrap":
+        return ["Wrap", [_strip_arrays(args[0])], {}]
+    if name == "with_variant":
+        return ["with_variant", [_strip_arrays(args[0]), [[dn, _strip_arrays(vt)] for dn, vt in args[1]]], {}]
+    return t
+
+
+def normalize_type(t):
+    """make a type spec constructible: no ARRAY directly or transitively inside an ARRAY; the value given to
+    with_variant() carries no variants of its own; nested with_variant bases are flattened (last one wins per
+    dialect, as with chained with_variant() calls)"""
+    if isinstance(t, str):
+        return t
+    name, args, kw = t
+    if name == "ARRAY":
+        return ["ARRAY", [normalize_type(_strip_arrays(args[0]))], {}]
+    if name == "Wrap":
+        return ["Wrap", [normalize_type(args[0])], {}]
+    if name == "with_variant":
+        base = normalize_type(args[0])
+        variants = []
+        if type_name(base) == "with_variant":
+            variants = [list(v) for v in base[1][1]]
+            base = base[1][0]
+        for dn, vt in args[1]:
+            vt = normalize_type(vt)
+            while type_name(vt) == "with_variant":
+                vt = vt[1][0]
+            variants = [v for v in variants if v[0] != dn] + [[dn, vt]]
+        return ["with_variant", [base, variants], {}]
+    if name == "PickleType":
+        return [name, args, {"impl": normalize_type(kw["impl"])}] if "impl" in kw else t
+    return t
+
+
 def _is_typespec(x):
     return isinstance(x, str) or (isinstance(x, list) and len(x) == 3 and isinstance(x[0], str) and isinstance(x[1], list) and isinstance(x[2], dict))
 
 
 def type_arg_variants(t, rng):
     """the same type class with other constructor arguments (for types holding types: one inner change)"""
+    alt = _type_arg_variants(t, rng)
+    if alt is None:
+        return None
+    alt = normalize_type(alt)
+    return None if alt == t else alt
+
+
+def _type_arg_variants(t, rng):
     name = type_name(t)
     if name in USER_TYPES:
         return [name, ["b" if t[1][0] == "a" else "a"], {}]
     if name in ("ARRAY", "Wrap"):
         inner = t[1][0]
-        alt = type_arg_variants(inner, rng)
+        alt = _type_arg_variants(inner, rng)
         if alt is None or rng.random() < 0.2:
             alt = _other(rng, ["Integer", "String", ["NC", ["a"], {}], ["NC", ["b"], {}], ["CK", ["a"], {}]], inner)
         return [name, [alt], {}]
     if name == "PickleType":
-        return ["PickleType", [], {"impl": type_arg_variants(t[2]["impl"], rng) or ["LargeBinary", [30], {}]}]
+        return ["PickleType", [], {"impl": _type_arg_variants(t[2]["impl"], rng) or ["LargeBinary", [30], {}]}]
     if name == "with_variant":
         base, variants = t[1]
         variants = [list(v) for v in variants]
@@ -397,7 +452,7 @@ def type_arg_variants(t, rng):
         if c < 0.35:      # other class for one dialect
             variants[i][1] = _other(rng, ["Integer", "String", "Text", "Numeric", "BigInteger"], type_name(variants[i][1]))
         elif c < 0.6:     # other arguments for one dialect
-            variants[i][1] = type_arg_variants(variants[i][1], rng) or _other(rng, ["Integer", "Text"], type_name(variants[i][1]))
+            variants[i][1] = _type_arg_variants(variants[i][1], rng) or _other(rng, ["Integer", "Text"], type_name(variants[i][1]))
         elif c < 0.75:    # other dialect
             variants[i][0] = _other(rng, [d for d in VARIANT_DIALECTS if d not in [v[0] for v in variants]] + [variants[i][0]], variants[i][0])
         elif c < 0.9:     # one more / one less dialect
@@ -406,7 +461,7 @@ def type_arg_variants(t, rng):
             else:
                 variants.append([_other(rng, VARIANT_DIALECTS, variants[0][0]), random_simple_type(rng, "int")])
         else:
-            base = type_arg_variants(base, rng) or _other(rng, ["Integer", "String"], type_name(base))
+            base = _type_arg_variants(base, rng) or _other(rng, ["Integer", "String"], type_name(base))
         return ["with_variant", [base, variants], {}]
     cur = [[], {}] if isinstance(t, str) else [t[1], t[2]]
     alts = [v for v in TYPE_ARG_VARIANTS.get(name, []) if v != cur]
@@ -1475,9 +1530,9 @@ def _node_mutations(node, rng, frommap=None, top=True):
         elif h == "cast":
             out.append(("casttype", ["cast", node[1], _other(rng, CAST_TYPES, type_name(node[2]))]))
             if type_name(node[2]) not in COMPOSITE_TYPES + USER_TYPES:
-                out.append(("typewrap", ["cast", node[1], rng.choice([
+                out.append(("typewrap", ["cast", node[1], normalize_type(rng.choice([
                     ["with_variant", [node[2], [[rng.choice(VARIANT_DIALECTS), random_simple_type(rng, "int")]]], {}],
-                    ["ARRAY", [node[2]], {}], ["Wrap", [node[2]], {}]])]))
+                    ["ARRAY", [node[2]], {}], ["Wrap", [node[2]], {}]]))]))
             alt = type_arg_variants(node[2], rng)
             if alt:
                 out.append(("typearg", ["cast", node[1], alt]))
